@@ -37,6 +37,9 @@ fn mix_label(m: &[u64; 6]) -> String {
 #[cfg(feature = "fv")]
 fn sign_mut_step(alg: Alg, blob: &[u8], msg: &[u8], cb: Cb) -> (libcall::SignRec, Vec<u8>) {
     let mut m = msg.to_vec();
+    if m.is_empty() {
+        m.push(0x5a);
+    }
     m.extend(std::iter::repeat(0u8).take(alg.n()));
     let (rec, _) = libcall::sign_mut(alg, blob, &mut m, cb);
     (rec, m)
